@@ -14,6 +14,7 @@ LEAN_TARGETS = ['VivProps.C18']
 DRIVER = 'Emitter'
 REQUIRED_THEOREMS = [
     'timeseries_columns', 'timeseries_time', 'aligned', 'roundtrip', 'path_timeseries_reads',
+    'path_timeseries_only_leaves',
     'query_exact', 'query_keeps_falsy',
 ]
 ANCHORS = [
